@@ -560,6 +560,43 @@ def failc_facts(repo, sk, facts, notes):
     facts['tcm_failc_reset_atomic'] = bool(is_atomic and (plain or guarded))
     facts['tcm_failc_reset_guarded'] = bool(guarded)
 # ===== C08 block end =====
+# ===== C12d block begin (which line each sink is handed: BackendWorker::_write_log_statement & co; add-only, owned by props/c12.py) =====
+def c12d_facts(repo, sk, facts, notes):
+    global MACRO_ARGS
+    p = os.path.join(repo, 'include', 'quill', 'backend', 'BackendWorker.h')
+    docs = run_clang('#include "quill/backend/BackendWorker.h"\n', 'BackendWorker', repo)
+    MACRO_ARGS = True
+    try:
+        for m in ('_write_log_statement', '_process_multi_line_message', '_dispatch_transit_event_to_sinks'):
+            sk['c12d' + m] = method_skeleton(docs, p, m) or []
+    finally:
+        MACRO_ARGS = False
+    # the wording of the assert is not part of the skeleton
+    sk['c12d_dispatch_transit_event_to_sinks'] = [re.sub(r'^(\s*EXPR assert)\b.*$', r'\1', l) for l in sk['c12d_dispatch_transit_event_to_sinks']]
+    w = sk['c12d_write_log_statement']
+    ind = lambda l: len(l) - len(l.lstrip(' '))
+    ok = False
+    try:
+        i_for = next(i for i, l in enumerate(w) if l.startswith('FOR ') and 'logger_base->sinks' in l)
+        body = []
+        for l in w[i_for + 1:]:
+            if ind(l) == 0:
+                break
+            body.append(l)
+        rx_decl = r'\s*DECL std::string_view log_to_write = log_statement;$'
+        decls = [i for i, l in enumerate(w) if re.match(r'\s*DECL .*\blog_to_write\b', l)]
+        i_decl = next(i for i, l in enumerate(body) if re.match(rx_decl, l))
+        i_ovr = next(i for i, l in enumerate(body) if re.match(r'\s*IF sink->_override_pattern_formatter_options$', l))
+        i_asg = next(i for i, l in enumerate(body) if re.match(r'\s*EXPR log_to_write = sink->_override_pattern_formatter->format\(', l))
+        i_wr = next(i for i, l in enumerate(body) if re.match(r'\s*EXPR sink->write_log\(.*, log_message, log_to_write\)$', l))
+        # one declaration, inside the loop body (and inside the filter test), initialised from log_statement, before
+        # the override test; the override assignment is under that test; write_log is handed log_to_write afterwards
+        ok = (len(decls) == 1 and decls[0] == i_for + 1 + i_decl and i_decl < i_ovr < i_asg < i_wr
+              and ind(body[i_decl]) == ind(body[i_ovr]) == ind(body[i_wr]) and ind(body[i_asg]) > ind(body[i_ovr]))
+    except StopIteration:
+        ok = False
+    facts['be_log_to_write_reinit_per_sink'] = ok
+# ===== C12d block end =====
 
 
 def main():
@@ -574,6 +611,7 @@ def main():
     sk, facts, notes = generate(repo)
     uq_facts(repo, sk, facts, notes)   # C02 block
     failc_facts(repo, sk, facts, notes)   # C08 block
+    c12d_facts(repo, sk, facts, notes)   # C12d block
     txt = emit(sk, facts, notes, os.path.normpath(out))
     if dump:
         for k in sorted(sk):
